@@ -16,6 +16,34 @@ pub const ID_ATOMS: &[&str] = &[
     "v", "dev", "rev", "1v", "x-",
 ];
 
+/// Numbers with structure in binary or decimal: every power of two and its neighbours, small
+/// multiples of 2^s plus a small digit (a truncating cast or a packed key keeps only the low
+/// part), powers of ten and their neighbours, values with a four-digit group of 9999 / 0000.
+pub fn structured_numbers() -> Vec<u64> {
+    let mut v: Vec<u64> = vec![0, 1, 2, 9, 10];
+    for k in 1..=63u32 {
+        let p = 1u64 << k;
+        v.extend([p - 1, p, p.saturating_add(1)]);
+    }
+    v.push(u64::MAX);
+    v.push(u64::MAX - 1);
+    for s in [8u32, 16, 20, 24, 28, 31, 32, 33, 40, 48, 52] {
+        for m in [1u64, 2, 3, 7] {
+            for d in 0..=10u64 {
+                v.push((m << s) + d);
+            }
+        }
+    }
+    for e in 1..=19u32 {
+        let p = 10u64.pow(e);
+        v.extend([p - 1, p, p + 1]);
+    }
+    v.extend([9_999, 19_999, 29_999, 99_990_000, 100_001_234, 123_499_995_678, 1_000_012_345_678, 59_999, 10_000_9999]);
+    v.sort();
+    v.dedup();
+    v
+}
+
 pub fn rand_ids(r: &mut Rng, max: usize) -> Vec<String> {
     let n = r.below(max + 1);
     (0..n).map(|_| r.pick(ID_ATOMS).to_string()).collect()
